@@ -5,7 +5,8 @@
 //! operation ran on, its name, the whole buffer before and after the call and
 //! the argument (hexadecimal, `null` when absent). Calls an operation makes to
 //! other operations are not recorded. Nothing is written, and nothing is
-//! copied, when the variable is not set.
+//! copied, when the variable is not set. A call that panics is recorded with
+//! `"panic":true` and no buffer after the call.
 use std::{
 	cell::Cell,
 	fmt::Write as _,
@@ -97,8 +98,11 @@ impl Drop for Span {
 	fn drop(&mut self) {
 		DEPTH.with(|d| d.set(d.get().saturating_sub(1)));
 		if let Some(mut line) = self.line.take() {
-			// the operation did not return
-			line.push_str(",\"panic\":true,\"post\":null}\n");
+			// `exit` was not reached: the operation panicked, or returned
+			// from a place that has no hook (the line then only tells that
+			// a call was made).
+			let panic = std::thread::panicking();
+			let _ = writeln!(line, ",\"panic\":{panic},\"post\":null}}");
 			write_line(&line)
 		}
 	}
